@@ -25,7 +25,7 @@ HARNESS = os.path.join(ROOT, "harness/c10/zz_verif_c10_test.go")
 PKG = "./internal/index/manager/"
 RUN = os.path.join(BUILD, "run", "c10")
 TAGDEFS = ['cdata:"a"', 'cdata:"bb"', 'cdata:"c"']
-GEN_VERSION = 4
+GEN_VERSION = 5
 KF_REFETCH = "view-refetch-empty"
 
 
@@ -33,9 +33,14 @@ KF_REFETCH = "view-refetch-empty"
 def gen_scenario(rng, name, big=False):
     nflows = rng.randint(2, 5)
     ncaps = rng.randint(3, 9 if big else 7)
-    caps, seen = [], []
+    caps, seen, bad = [], [], []
     for k in range(ncaps):
-        if k > 0 and rng.random() < 0.06:
+        r0 = rng.random()
+        if r0 < 0.05:
+            caps.append([])          # unreadable file: the import reports it processed, cuts the batch there, creates nothing
+            bad.append(k)
+            continue
+        if k > 0 and r0 < 0.10:
             caps.append([])          # capture without packets: processed, creates nothing
             continue
         pk = []
@@ -68,7 +73,7 @@ def gen_scenario(rng, name, big=False):
             script.append([k, rng.randrange(6)])
         else:
             script.append([k])
-    return {"name": name, "caps": caps, "script": script, "tags": TAGDEFS[:rng.randint(0, 3)] if style < 0.75 else TAGDEFS, "probe": nflows + 2}
+    return {"name": name, "caps": caps, "script": script, "tags": TAGDEFS[:rng.randint(0, 3)] if style < 0.75 else TAGDEFS, "probe": nflows + 2, "bad": bad}
 
 
 def fixed_scenarios():
@@ -96,6 +101,10 @@ def fixed_scenarios():
     out.append({"name": "fix-tag-redefined-under-job", "caps": [[[0, 3]], [[1, 2]], [[2, 1]]], "tags": ['cdata:"a"'], "probe": 5,
                 "script": [["import", 1], ["job", "import"], ["job", "import"], ["tagadd"], ["tagupd", 0], ["job", "tag"], ["tagupd", 0], ["job", "tag"],
                            ["job", "tag"], ["job", "tag"], ["import", 2], ["view"], ["job", "import"], ["tagdel", 0], ["job", "import"]]})
+    # unreadable capture files: first of a batch (dropped alone), in the middle of a batch (batch cut there)
+    out.append({"name": "fix-unreadable-captures", "caps": [[], [[0, 3]], [[1, 2]], [], [[0, 1], [2, 2]], [[1, 1]]], "bad": [0, 3], "tags": [], "probe": 5,
+                "script": [["import", 2], ["view"], ["job", "import"], ["import", 3], ["job", "import"], ["job", "import"], ["view"], ["job", "import"],
+                           ["job", "import"], ["job", "import"], ["view"], ["job", "import"], ["job", "import"], ["import", 1]]})
     # view opened on an empty service (shape of finding view-refetch-empty)
     out.append({"name": "fix-view-on-empty", "caps": [[[0, 3], [1, 2]], [[0, 1]]], "tags": [], "probe": 4,
                 "script": [["view"], ["import", 1], ["job", "import"], ["job", "import"], ["read", 0], ["import", 1], ["job", "import"], ["job", "import"]]})
@@ -353,8 +362,10 @@ def oracle_c13(sc, trace):
             for f in ob["held"]:
                 if f not in D:
                     fails.append(fail("C13", "deleted-in-use", i, "file %s is held by view %s but is not in the index directory" % (f, vid)))
-        if s.get("log"):
-            fails.append(fail("C13", "job-failed", i, "manager log reports: %s" % s["log"][:2]))
+        badnames = ["c%03d.pcap" % k for k in sc.get("bad", [])]
+        unexpected = [l for l in (s.get("log") or []) if not any(b in l for b in badnames)]
+        if unexpected:
+            fails.append(fail("C13", "job-failed", i, "manager log reports: %s" % unexpected[:2]))
         if st.get("readerr"):
             fails.append(fail("C13", "read-failed", i, "served/used file unreadable: %s" % st["readerr"][:2]))
         # (2) which jobs ended / were launched by this action
@@ -441,6 +452,8 @@ def model_case_text(sc, trace):
     lines = ["H " + sc["name"]]
     for k, pk in enumerate(sc["caps"]):
         lines.append("cap %d %s" % (k, " ".join("%d:%d" % (f, n) for f, n in pk)))
+    for k in sc.get("bad", []):
+        lines.append("bad %d" % k)
     for s in trace["steps"]:
         act = s.get("act")
         if not act or s.get("fatal"):
